@@ -271,3 +271,19 @@ Definition events (tr : trace) : list event := flat_map snd tr.
 
 (* the whole CallMethod on one thread without interleaving (a call made on the loop thread) *)
 Definition call_labels (t : tid) (c : call) : list label := [LFetch t c; LRegister t; LSend t].
+
+(* ---- observation functions used by the statements in Properties_C19.v ---- *)
+Definition run_tags (evs : list event) : list tag :=
+  flat_map (fun e => match e with ERun c _ => [c] | _ => [] end) evs.
+(* the calls started in a schedule: one LFetch per CallMethod invocation *)
+Definition fetch_tags (ls : list label) : list tag :=
+  flat_map (fun l => match l with LFetch _ c => [c_tag c] | _ => [] end) ls.
+Definition fetched_ids (evs : list event) : list Z :=
+  flat_map (fun e => match e with EFetch _ i _ => [i] | _ => [] end) evs.
+Definition dispatch_toks (evs : list event) : list tok :=
+  flat_map (fun e => match e with EDispatch k _ _ _ _ => [k] | _ => [] end) evs.
+Definition done_toks (ls : list label) : list tok :=
+  flat_map (fun l => match l with LDone k _ => [k] | _ => [] end) ls.
+Definition body_ok (b : rbody) : Prop := rb_resp b <> None \/ rb_err b <> None.
+Definition replies_label (l : label) : bool :=
+  match l with LRequest _ | LDone _ _ => true | _ => false end.
